@@ -441,6 +441,8 @@ def _parse_single_ix_experiment_3_0(struct: ir.Struct) -> SqwIXExperiment:
         en = raw_en.squeeze()
     else:
         en = [e.value for e in raw_en]
+    # Indirect-geometry files can store one set of energy transfers per detector.
+    en_dims = ["detector", "energy_transfer"] if np.ndim(en) == 2 else ["energy_transfer"]
 
     angle_unit = sc.Unit("deg" if g("angular_is_degree") else "rad")
 
@@ -450,7 +452,7 @@ def _parse_single_ix_experiment_3_0(struct: ir.Struct) -> SqwIXExperiment:
         run_id=int(g("run_id")) - 1,
         efix=efix,
         emode=EnergyMode(g("emode")),
-        en=sc.array(dims=["energy_transfer"], values=en, unit="meV"),
+        en=sc.array(dims=en_dims, values=en, unit="meV"),
         psi=sc.scalar(g("psi"), unit=angle_unit),
         u=sc.vector(_get_struct_field(struct, "u").data),
         v=sc.vector(_get_struct_field(struct, "v").data),
